@@ -36,7 +36,12 @@ func (it inItem) String() string {
 	return fmt.Sprintf("%s(%d%s)#%d", it.Kind, it.ID, d, it.Gen)
 }
 
-func (it inItem) topic() string { return fmt.Sprintf("t/%d", it.Gen) }
+func (it inItem) topic() string {
+	if it.Gen%3 == 1 {
+		return fmt.Sprintf("t/é日本/%d", it.Gen) // multi-byte topic: byte length differs from rune count
+	}
+	return fmt.Sprintf("t/%d", it.Gen)
+}
 func (it inItem) payload() []byte {
 	b := make([]byte, it.Pl)
 	for i := range b {
@@ -141,11 +146,21 @@ func c04RunSeq(seq []inItem, chunk int, withHandler, stepwise bool) (sig, detail
 	cli, conn := scen.NewBase(tr, peer)
 	conn.Chunk = chunk
 	if withHandler {
-		cli.Handle(mqtt.HandlerFunc(func(m *mqtt.Message) {
+		var h mqtt.Handler
+		nh := 0
+		h = mqtt.HandlerFunc(func(m *mqtt.Message) {
 			tr.Add(memnet.Event{Kind: memnet.KHEnter, Conn: conn.ID, S: m.Topic, S2: fmt.Sprintf("q%d id=%d ret=%v len=%d", m.QoS, m.ID, m.Retain, len(m.Payload)), N: len(m.Payload), Raw: append([]byte{}, m.Payload...)})
 			runtime.Gosched()
+			nh++
+			if nh%2 == 0 {
+				// like an application's handler, ours calls back into the client now and then (here: registers
+				// itself again and looks at the connection's state)
+				cli.Handle(h)
+				_ = cli.Err()
+			}
 			tr.Add(memnet.Event{Kind: memnet.KHExit, Conn: conn.ID, S: m.Topic})
-		}))
+		})
+		cli.Handle(h)
 	}
 	if err := scen.ConnectBase(cli); err != nil {
 		return "harness", "connect failed: " + err.Error(), stats, tr.Dump(0)
